@@ -1,6 +1,7 @@
 import Dmn.Model.Sexp
 import Dmn.Model.ModelBuild
 import Dmn.Driver.C03
+import Dmn.Driver.C12Xml
 
 /-!
 Driver handler for C12.
@@ -13,6 +14,7 @@ Driver handler for C12.
 * `(c12 graph (items…) (inputs…) (bkms…) (decisions…) (services…))` — requirement graph;
   answer `(<build> (<decision id> <res>)… | (<bkm id> <res>)… | (<service id> <res>)…)` with
   res = `ok` | `error` | `diverge`, fuel 64.
+* `(c12 parse|parse-dt|parse-graph <uri-table> <tree>)` — the XML layer, see `Driver/C12Xml.lean`.
 -/
 
 namespace Dmn.Driver.C12
@@ -130,6 +132,7 @@ def handle (args : List Sexp) : String :=
       let ss := services.map (fun x => s!"({x.id} {resStr (evalService d fuel x.id)})")
       s!"({resStr b} ({" ".intercalate ds}) ({" ".intercalate bs}) ({" ".intercalate ss}))"
     | _, _, _, _, _ => "(error bad-argument)"
+  | [.atom kind, table, tree] => Dmn.Driver.C12Xml.handle kind table tree
   | _ => "(error bad-request)"
 
 end Dmn.Driver.C12
